@@ -130,10 +130,18 @@ fn random_scripts(b: &mut Base, max: u64, tip_hint: u64) -> Vec<(ScriptRef, u64)
 
 fn finish(mut b: Base, quiet_from: u64, tail: u64) -> Plan {
     b.plan.quiet_from = quiet_from;
-    b.plan.max_time = quiet_from + tail;
+    // every block may cost three round trips (filters, proof, body) with batch size 1
+    let rtt = b.plan.peers.iter().map(|p| 2 * (p.latency + p.jitter)).max().unwrap_or(100);
+    let work = (b.plan.initial_blocks + 60) * 4 * rtt;
+    b.plan.max_time = quiet_from + tail + work;
     // The world never stops: after the faults stopped a block arrives every 20..50 s on the
     // main chain (an unchanged last state for 60 s makes the client drop the peer by design).
     let main = b.plan.flags.iter().find_map(|f| f.strip_prefix("main=").and_then(|v| v.parse::<usize>().ok())).unwrap_or(0);
+    for p in 0..b.plan.peers.len() {
+        if b.plan.peers[p].lag > 0 {
+            add(&mut b.plan, quiet_from, Action::SetLag { peer: p, lag: 0 });
+        }
+    }
     let mut t = quiet_from + b.rng.range(1_000, 20_000);
     while t < b.plan.max_time {
         add(&mut b.plan, t, Action::Mine { branch: main, n: 1 });
